@@ -350,10 +350,45 @@ pub fn run(ctx: &mut Ctx) {
                 expect_value(rep, "uint", form, &s, &u.into());
                 src = s;
             }
+            2 if rng.chance(1, 2) => {
+                // spelling-driven: a random decimal digit string (any number of digits before and after the
+                // point, optional exponent); the value is the correctly rounded reading (the host's parser)
+                let ni = rng.below(20);
+                let nf = if ni == 0 { 1 + rng.below(22) } else { rng.below(22) };
+                let mut s = String::new();
+                for k in 0..ni {
+                    s.push(char::from(b'0' + if k == 0 && ni > 1 { 1 + rng.below(9) as u8 } else { rng.below(10) as u8 }));
+                }
+                s.push('.');
+                for _ in 0..nf {
+                    s.push(char::from(b'0' + rng.below(10) as u8));
+                }
+                if nf == 0 && rng.chance(1, 2) {
+                    s.push('0');
+                }
+                let form = if !s.ends_with('.') && rng.chance(1, 4) {
+                    s.push_str(&format!("{}{}{}", rng.pick(&["e", "E"]), rng.pick(&["", "+", "-"]), rng.below(30)));
+                    "digits-exp"
+                } else if ni + nf >= 16 && s.len() <= 19 {
+                    "digits-16-to-19-chars"
+                } else {
+                    "digits-plain"
+                };
+                let want: f64 = s.parse().expect("host parses the spelling");
+                if want.is_finite() {
+                    expect_value(rep, "double", form, &s, &want.into());
+                }
+                src = s;
+            }
             2 => {
+                // value-driven: random bit patterns, half of them pulled into the magnitudes people write
                 let mut f = rng.f64_bits();
                 if !f.is_finite() {
                     f = 1.5;
+                }
+                if rng.chance(1, 2) {
+                    let m = (rng.next() >> 11) as f64; // 53 random bits
+                    f = m / 10f64.powi(rng.below(20) as i32);
                 }
                 let (s, form) = spell_double(rng, f);
                 let want: f64 = s.parse().expect("host parses the spelling");
